@@ -10,7 +10,7 @@ values in the R-tier / replay.
 
 class LoopSpec(object):
     def __init__(self, ordinal, invariants=(), decreases=None, summarise=None, types=None,
-                 havoc=(), unroll=None, item_type=None, note=None, ghost=None, frame=None, abstract=None, hints=(), sk_hints=(), exit_assume=(), yield_ghost=None):
+                 havoc=(), unroll=None, item_type=None, note=None, ghost=None, frame=None, abstract=None, hints=(), sk_hints=(), exit_assume=(), yield_ghost=None, only_cases=None):
         self.ordinal = ordinal
         self.invariants = list(invariants)   # [(name, expr)]
         self.decreases = decreases
@@ -26,6 +26,7 @@ class LoopSpec(object):
         self.sk_hints = list(sk_hints)    # same, relative to the bound variables of the goal being proved
         self.hints = list(hints)          # expressions (positions) at which quantified facts are instantiated
         self.yield_ghost = yield_ghost    # (name, elem type): ghost sequence of the items yielded by the loop so far (cut loops)
+        self.only_cases = only_cases      # predicate over the contract case: the loop contract applies to these cases only (others: plain execution)
         self.abstract = abstract          # {"assume": [(name, expr)], "why": text}: loop replaced by an ASSUMED summary
 
 
